@@ -578,6 +578,12 @@ class Model:
             r.members['index_key'] = key.term
         return r
 
+    def bound_store(self, interp, obj: BoundModel, key, val, node):
+        """da.coords[name] = value (also masks / attrs): the abstract object follows the store."""
+        v = obj.recv
+        if isinstance(v, SVar) and obj.name in ('coords', 'masks', 'attrs', 'meta', 'bins.coords') and not isinstance(key, Opaque | SVar):
+            v.members.setdefault(obj.name, {})[key] = val
+
     def bound_index(self, interp, obj: BoundModel, key, node):
         v = obj.recv
         if isinstance(v, SVar) and obj.name in ('coords', 'masks', 'attrs', 'meta', 'bins.coords'):
